@@ -28,12 +28,25 @@ PayloadTerm(p) ==
     [] p.kind = "register_data" -> << <<"b", <<21>> >>, <<"u16", p.dataLen>>, <<"r", 68, p.dataLen>> >>
     [] p.kind = "schedule" -> << <<"b", <<19>> >>, Addr(p.to), <<"b", <<p.n>> >> >>
                               \o [i \in 1..(2 * p.n) |-> IF i % 2 = 1 THEN <<"u64", 0, 1000 * ((i + 1) \div 2)>> ELSE <<"u64", 0, p.amount>>]
+    \* contract and stake payloads: deploy = 0 ++ version u32 ++ length u32 ++ source; init = 1 ++ amount ++ module reference (32) ++ name ++ parameter;
+    \* update = 2 ++ amount ++ contract address ++ receive name ++ message; remove baker = 5; update stake = 6 ++ amount; restake = 7 ++ flag; to encrypted = 17 ++ amount
+    [] p.kind = "deploy_module" -> << <<"b", <<0>> >>, <<"u32", p.version>>, <<"u32", p.size>>, <<"r", 0, p.size>> >>
+    [] p.kind = "init_contract" -> << <<"b", <<1>> >>, <<"u64", 0, p.amount>>, <<"r", 7, 32>>, <<"u16", 6>>, <<"b", <<105, 110, 105, 116, 95, 99>> >>, <<"u16", p.plen>>, <<"r", 1, p.plen>> >>
+    [] p.kind = "update_contract" -> << <<"b", <<2>> >>, <<"u64", 0, p.amount>>, <<"u64", 0, 3>>, <<"u64", 0, 0>>, <<"u16", 3>>, <<"b", <<99, 46, 102>> >>, <<"u16", p.plen>>, <<"r", 1, p.plen>> >>
+    [] p.kind = "remove_baker" -> << <<"b", <<5>> >> >>
+    [] p.kind = "update_baker_stake" -> << <<"b", <<6>> >>, <<"u64", 0, p.amount>> >>
+    [] p.kind = "update_baker_restake" -> << <<"b", <<7>> >>, <<"b", <<IF p.flag THEN 1 ELSE 0>> >> >>
+    [] p.kind = "transfer_to_encrypted" -> << <<"b", <<17>> >>, <<"u64", 0, p.amount>> >>
 
 Specific(p) ==
   CASE p.kind = "transfer" -> 300
     [] p.kind = "transfer_memo" -> 300
     [] p.kind = "register_data" -> 300
     [] p.kind = "schedule" -> p.n * (300 + 64)
+    [] p.kind = "deploy_module" -> p.size \div 10
+    [] p.kind \in {"init_contract", "update_contract"} -> p.given          \* the execution energy is chosen by the caller and added on top
+    [] p.kind \in {"remove_baker", "update_baker_stake", "update_baker_restake"} -> 300
+    [] p.kind = "transfer_to_encrypted" -> 600
 
 PayloadSize(p) == TermLen(PayloadTerm(p))
 EnergyOf(p, nsigs) == B * (HEADER_SIZE + PayloadSize(p)) + A * nsigs + Specific(p)
@@ -46,6 +59,9 @@ Payloads ==
   \cup [kind : {"transfer_memo"}, to : {9}, amount : {5}, memoLen : {0, 1, 255, 256}]
   \cup [kind : {"register_data"}, dataLen : {0, 1, 256}]
   \cup [kind : {"schedule"}, to : {9}, amount : {1, 7}, n : {1, 2, 255}]
+  \cup [kind : {"deploy_module"}, version : {0, 1}, size : {0, 9, 10, 1000}]
+  \cup [kind : {"init_contract", "update_contract"}, amount : {0, 5}, plen : {0, 3, 1024}, given : {0, 1, 10000}]
+  \cup [kind : {"remove_baker"}] \cup [kind : {"update_baker_stake", "transfer_to_encrypted"}, amount : {0, 1000}] \cup [kind : {"update_baker_restake"}, flag : BOOLEAN]
 
 VARIABLES p, nsigs
 EInit == p \in Payloads /\ nsigs \in {1, 2, 3, 255}
